@@ -193,7 +193,7 @@ class Env(object):
             return False, e
         good = expect is None
         self.obls.append(Obl("fact", name, good, None,
-                             {"detail": "returned" if good else "returned instead of raising %s" % expect.__name__}))
+                             {"detail": "returned" if good else "returned instead of raising %s" % getattr(expect, "__name__", " / ".join(getattr(e_, "__name__", str(e_)) for e_ in (expect if isinstance(expect, tuple) else (expect,))))}))
         return True, v
 
 
